@@ -61,6 +61,65 @@ func c07Extra(c *Check) {
 	c.Floor("C07.R5:fresh-per-session", n, 1)
 }
 
+// c07AtomicFlag: when the session's closed flag is an atomic.Bool instead of a
+// bool under connLock, close-exactly-once needs an atomic *claim*: every Close()
+// of the session socket must be behind the true-edge of closed.CompareAndSwap(false, true)
+// or behind the false-edge of a closed.Load() executed while connLock is held.
+// A lock-free Load() followed by Lock()+Store(true) lets two closers through.
+func c07AtomicFlag(c *Check) {
+	p := c.P
+	fClosed := p.Field(pServer, "udpSessionEntry", "closed")
+	fConn := p.Field(pServer, "udpSessionEntry", "conn")
+	fLock := p.Field(pServer, "udpSessionEntry", "connLock")
+	if fClosed == nil || fConn == nil {
+		return // the main rules report unresolved anchors
+	}
+	nt := namedOf(fClosed.Type())
+	if nt == nil || nt.Obj().Pkg() == nil || nt.Obj().Pkg().Path() != "sync/atomic" {
+		return // plain bool: decided by R1/R2 of the main check
+	}
+	const rule = "C07.R2 close exactly once: with an atomic closed flag every Close() of the session socket is behind a successful CompareAndSwap(false, true) claim, or behind a Load() == false made while connLock is held"
+	la := p.Locks()
+	isFlagCall := func(v ssa.Value, method string) *ssa.Call {
+		call, ok := resolve(v).(*ssa.Call)
+		if !ok {
+			return nil
+		}
+		g := staticCallee(call)
+		if g == nil || g.Name() != method || len(call.Call.Args) == 0 {
+			return nil
+		}
+		if fa, ok := call.Call.Args[0].(*ssa.FieldAddr); ok && structField(fa.X.Type(), fa.Field) == fClosed {
+			return call
+		}
+		return nil
+	}
+	n := 0
+	for _, fn := range p.RepoFns {
+		if pk := fnPkg(fn); pk == nil || pk.Pkg.Path() != pServer {
+			continue
+		}
+		for _, ci := range callsIn(fn, func(ci ssa.CallInstruction) bool {
+			recv, ok := methodCallNamed(ci, "Close")
+			return ok && isLoadOfField(recv, fConn)
+		}) {
+			n++
+			in := ci.(ssa.Instruction)
+			claimed := guardedBy(in, func(cond ssa.Value, pol bool) bool {
+				if call := isFlagCall(cond, "CompareAndSwap"); call != nil && pol {
+					return len(call.Call.Args) == 3 && isConstBool(call.Call.Args[1], false) && isConstBool(call.Call.Args[2], true)
+				}
+				if call := isFlagCall(cond, "Load"); call != nil && !pol {
+					return fLock != nil && la.Holds(call, fLock, lockW)
+				}
+				return false
+			})
+			c.Req(claimed, "C07.R2:atomic-claim:"+fnName(fn), rule, p.InstrPos(in), "the session socket is closed on a path that did not claim the atomic closed flag (CompareAndSwap) nor re-check it under connLock: two overlapping closers both close the socket and both run the exit function")
+		}
+	}
+	c.Floor("C07.R2:atomic-close-sites", n, 1)
+}
+
 // c07freshValue: v is a fresh allocation made in fn, or the result of a
 // repository function that returns a fresh allocation on every path.
 func c07freshValue(p *Prog, v ssa.Value, fn *ssa.Function, depth int) bool {
